@@ -14,7 +14,7 @@ let () =
                     | e -> "bad exception " ^ Printexc.to_string e) in
            if v = "ok" then incr ok
            else if v = "ok nt" then begin incr ok; Hashtbl.replace nt (Digest.string line) () end
-           else begin incr bad; if !bad <= 200 then Printf.printf "%s | %s\n" v line end
+           else begin incr bad; if !bad <= 20000 then Printf.printf "%s | %s\n" v line end
        | [] -> ()
      done
    with End_of_file -> ());
